@@ -2,6 +2,7 @@ import OpdaProofs.Audit
 import OpdaProofs.NoisyLogic
 import OpdaProofs.NoisyReal
 import OpdaProofs.NoisySmooth
+import OpdaProofs.NoisyConv
 /-!
 # C06 — NoisyQuadratic cdf/pdf equal the quadratic law convolved with normal noise  *(proof, partial)*
 
@@ -21,9 +22,9 @@ is opaque to the kernel, so nothing is (or can be) proved *at* `Float`; the theo
 **Not theorems** (decided every run by the correspondence + the mpmath oracle; the evidence says so):
 the 2.5e-5 / 1e-4 / 0.2 / 5e-5 accuracy figures, the accuracy of the Chebyshev fallback, of the
 downward step for `k = −½` and of the `normal` regime, float rounding, `Φ(±∞) ∈ {0,1}` at `Float`, the
-convolution identity `P[Z+E ≤ y] = Φ(point) ± ∫₀¹ x^{c/2} dN(loc,scale²)` (stage 3, not done) and the
-constant `0.83·√(o/(b−a))` of the noiseless regime for `c = 1` (`0.4·c·o/(b−a)` for `c ≥ 2` *is* proved:
-`noiseless_bound`).
+step from "law of `Z + E`" to its mixture form `∫ Φ((y−z)/o) dF_Z(z)` (independence + Fubini; the mixture form
+is taken as the Spec here and is what the oracle integrates), the analogous identity for the *density*, and the constant `0.83·√(o/(b−a))` of the noiseless regime for `c = 1`
+(`0.4·c·o/(b−a)` for `c ≥ 2` *is* proved: `noiseless_bound`).
 -/
 namespace Opda.Props.C06
 open Opda.Noisy
@@ -132,6 +133,49 @@ theorem frac_moment_error (μ σ ε : ℝ) (hσ : 0 < σ) (hε0 : 0 ≤ ε) (f :
     (hε : ∀ pc ∈ ps, ∀ x ∈ Set.Icc pc.1.1 pc.1.2, |f x - polyEval pc.2 0 x| ≤ ε) :
     |(∫ x in x0..x1, f x * dens μ σ x) - piecesSum μ σ ps| ≤ ε :=
   chain_error_le μ σ ε hσ hε0 f hf x0 x1 ps hc hε
+
+/-- **T2 `conv_identity`** (every `p = c/2 > 0`, so every `c ≥ 1` including the singular density of `c = 1`):
+the mixture form of the law of `X + s·N`
+(`X` on `[0,1]` with distribution function `x^p`: the normalised noise-free law; conditioning on `X`),
+`H(t) = ∫₀¹ Φ((t−x)/s) d(x^p)`, equals the formula the implementation evaluates. -/
+theorem conv_identity (p s t : ℝ) (hp : 0 < p) (hs : 0 < s) :
+    mixture p s t = Phi ((t - 1) / s) + ∫ x in (0:ℝ)..1, x ^ p * dens t s x :=
+  Opda.Noisy.conv_identity p s t hp hs
+
+/-- **Model = Spec for even `c`, convex** (series regime, `ℝ`): `cdf(y) = H((y−a)/(b−a))` with `s = o/(b−a)`,
+the law of `a + (b−a)X + E` at `y` — no clip, no approximation left. -/
+theorem cdf_even_convex_model_eq_spec (d : Params ℝ) (k : ℕ) (hk : 1 ≤ k) (hc : d.c = 2 * k) (hcv : d.convex = true)
+    (hab : d.a ≤ d.b) (hp : pointMass (realFns T ninf pinf) d = false)
+    (h : regime (realFns T ninf pinf) d = .nothing) (y : ℝ) :
+    cdf (realFns T ninf pinf) d y = mixture k (d.o / (d.b - d.a)) ((y - d.a) / (d.b - d.a)) :=
+  cdf_even_convex_eq_mixture T ninf pinf d k hk hc hcv hab hp h y
+
+/-- **Model = Spec for even `c`, concave**: `cdf(y) = 1 − H((b−y)/(b−a))`, the law of `b − (b−a)X + E` at `y`. -/
+theorem cdf_even_concave_model_eq_spec (d : Params ℝ) (k : ℕ) (hk : 1 ≤ k) (hc : d.c = 2 * k) (hcv : d.convex = false)
+    (hab : d.a ≤ d.b) (hp : pointMass (realFns T ninf pinf) d = false)
+    (h : regime (realFns T ninf pinf) d = .nothing) (y : ℝ) :
+    cdf (realFns T ninf pinf) d y = 1 - mixture k (d.o / (d.b - d.a)) ((d.b - y) / (d.b - d.a)) :=
+  cdf_even_concave_eq_mixture T ninf pinf d k hk hc hcv hab hp h y
+
+/-- **odd `c` (1, 3, …), convex: Model within `ε` of Spec** whenever the selected pieces tile `[0,1]` and are `ε`-accurate
+(the provable uniform bound: `ε ≤ 1.02·max_error` of the entry by C19; up to 8e-4 — the 2.5e-5 of the property is
+*not* implied and is decided numerically).  `_partial`: the concave shape is analogous but not written out; the
+hypotheses on the selected pieces are C19's for the shipped table and are not available for the Chebyshev
+fallback (which serves the pdf of `c = 1` only). -/
+theorem cdf_odd_convex_within_eps_partial (d : Params ℝ) (k : ℕ) (hc : d.c = 2 * k + 1) (hcv : d.convex = true)
+    (hab : d.a ≤ d.b) (hp : pointMass (realFns T ninf pinf) d = false)
+    (h : regime (realFns T ninf pinf) d = .nothing) (y ε : ℝ) (hε0 : 0 ≤ ε)
+    (hchain : ChainFrom 0
+      (((approxCoeffs (realFns T ninf pinf) (locOf d y) (d.o / (d.b - d.a)) ((2 * k + 1 : ℕ) : ℤ)).1.zip
+        (approxCoeffs (realFns T ninf pinf) (locOf d y) (d.o / (d.b - d.a)) ((2 * k + 1 : ℕ) : ℤ)).1.tail).zip
+        (approxCoeffs (realFns T ninf pinf) (locOf d y) (d.o / (d.b - d.a)) ((2 * k + 1 : ℕ) : ℤ)).2) 1)
+    (hε : ∀ pc ∈ (((approxCoeffs (realFns T ninf pinf) (locOf d y) (d.o / (d.b - d.a)) ((2 * k + 1 : ℕ) : ℤ)).1.zip
+        (approxCoeffs (realFns T ninf pinf) (locOf d y) (d.o / (d.b - d.a)) ((2 * k + 1 : ℕ) : ℤ)).1.tail).zip
+        (approxCoeffs (realFns T ninf pinf) (locOf d y) (d.o / (d.b - d.a)) ((2 * k + 1 : ℕ) : ℤ)).2),
+      ∀ x ∈ Set.Icc pc.1.1 pc.1.2, |x ^ (((2 * k + 1 : ℕ) : ℝ) / 2) - polyEval pc.2 0 x| ≤ ε) :
+    |cdf (realFns T ninf pinf) d y
+        - mixture (((2 * k + 1 : ℕ) : ℝ) / 2) (d.o / (d.b - d.a)) ((y - d.a) / (d.b - d.a))| ≤ ε :=
+  cdf_odd_convex_error T ninf pinf d k hc hcv hab hp h y ε hε0 hchain hε
 
 /-- **T5 `noiseless_bound` (`c ≥ 2`)**: for `0 < o < 1e-6 (b−a)` the value returned (the noise-free law, the noise
 being deliberately ignored) is within `0.4·c·o/(b−a)` of its convolution with `N(0, o²)`, i.e. of the law of
